@@ -16,9 +16,9 @@ RULE = ('E2 (Hypothesis rule-based state machine, history replayable from its st
         'three geometry columns of different kinds (points / polygons / lines placed in three disjoint regions so that a query '
         'box over one region selects rows only if THAT column is the active one), an id and a float column, a drawn index kind, '
         'and an active column that is not the first geometry column and not named "geometry". Steps: iloc slice/list, loc mask, '
-        'boolean [], head/tail, sort_values, sort_index, copy, column subset containing the active column, column subset without '
+        'boolean [], head/tail, sort_values, sort_index, copy, GeoDataFrame(gdf), column subset containing the active column, column subset without '
         'any geometry (must be a plain DataFrame), cx, pickle, pd.concat of two live frames agreeing on the active column, '
-        'set_geometry(other), Dask round trip from_pandas(npartitions=1..4).compute(), per-partition active name via map_partitions, '
+        'set_geometry(other) on pandas and on Dask, Dask round trip from_pandas(npartitions=1..4).compute(), per-partition active name via map_partitions, '
         'parquet write + read_parquet_dask(geometry=<any geometry column>), build_sindex, sjoin, Dask partition bounds / '
         'pack_partitions. Model: dict of columns + active name + exact row filter (C01 oracle) on the active column. After every '
         'step: result type, .geometry.name == model active, rows/ids/index as the model says, behaviour follows the active column. '
@@ -179,6 +179,32 @@ class Interp:
             self.push(lib(B, lambda: df.copy(deep=s['deep'])), dict(mdl), B)
         elif op == 'pickle':
             self.push(lib(B, lambda: pickle.loads(pickle.dumps(df))), dict(mdl), B)
+        elif op == 'reconstruct':
+            # GeoDataFrame(gdf) inherits the active geometry of its input
+            self.push(lib(B, lambda: sp.GeoDataFrame(df)), dict(mdl), B)
+        elif op == 'dask_set_geometry':
+            import dask.dataframe as dd
+            cands = [c for c in mdl['cols'] if c in GEOMS]
+            g = cands[s['which'] % len(cands)]
+            if n == 0:
+                return
+            ddf = lib(B + ['from_pandas'], dd.from_pandas, df, npartitions=1 + s['npartitions'] % 3, sort=False)
+            ddf2 = lib(B, ddf.set_geometry, g)
+            nm = lib(B + ['ddf.geometry'], lambda: ddf2.geometry.name)
+            if nm != g:
+                raise Failure(B + ['ddf-active-wrong'], f'{nm} expected {g}')
+            names = lib(B + ['map_partitions'], lambda: list(ddf2.map_partitions(lambda d: pd.Series([d.geometry.name]), meta=pd.Series([], dtype=object)).compute()))
+            if any(x != g for x in names):
+                raise Failure(B + ['partition-active-wrong'], f'partitions report {names} after set_geometry({g!r})')
+            self.big += 1
+            m2 = dict(mdl, active=g)
+            self.push(lib(B + ['compute'], ddf2.compute), m2, B + ['compute'])
+            x0 = REGION[g] - 5
+            box = [x0, -5, x0 + 30, 30]
+            sel = lib(B + ['dask.cx'], lambda: ddf2.cx[box[0]:box[2], box[1]:box[3]].compute())
+            exp = sorted(m2['ids'][i] for i in self.expected_cx(m2, box))
+            if sorted(sel['id']) != exp:
+                raise Failure(B + ['dask.cx', 'wrong-rows', 'active=' + g], f'ids={sorted(sel["id"])} expected {exp}')
         elif op == 'col_subset':
             keep = [c for c in mdl['cols'] if c == mdl['active'] or c == 'id' or (c in s['extra'])]
             new = lib(B, lambda: df[keep])
@@ -395,7 +421,7 @@ def _header(draw):
 @st.composite
 def _step(draw):
     op = draw(st.sampled_from(['iloc_slice', 'iloc_list', 'loc_mask', 'bool_getitem', 'head', 'tail', 'sort_values', 'sort_index',
-                               'copy', 'pickle', 'col_subset', 'col_subset_nogeom', 'set_geometry', 'set_geometry', 'cx', 'cx', 'cx',
+                               'copy', 'pickle', 'reconstruct', 'col_subset', 'col_subset_nogeom', 'set_geometry', 'set_geometry', 'dask_set_geometry', 'cx', 'cx', 'cx',
                                'build_sindex', 'concat', 'concat', 'dask_roundtrip', 'dask_roundtrip', 'parquet_dask', 'sjoin', 'pack_partitions']))
     s = {'op': op, 'src': draw(st.integers(0, 3))}
     small = st.integers(0, 9)
@@ -427,7 +453,7 @@ def _step(draw):
     elif op == 'dask_roundtrip':
         s.update(npartitions=draw(small), region=draw(st.sampled_from(GEOMS)),
                  sizes=draw(st.one_of(st.none(), st.lists(st.integers(0, 20), min_size=1, max_size=3))))
-    elif op == 'parquet_dask':
+    elif op in ('parquet_dask', 'dask_set_geometry'):
         s.update(which=draw(small), npartitions=draw(small))
     elif op == 'pack_partitions':
         s.update(p=draw(st.integers(2, 10)))
